@@ -534,6 +534,11 @@ class _Norm(ast.NodeTransformer):
         return n
 
     def visit_If(self, n):
+        # a negated compound test of a two-armed if is un-negated by exchanging the arms *before* the test is visited: De Morgan (N5) would
+        # otherwise fold the negation into the parts and the arms could no longer be matched with the reference spelling
+        if n.orelse and not (len(n.orelse) == 1 and isinstance(n.orelse[0], ast.If)) and isinstance(n.test, ast.UnaryOp) and \
+                isinstance(n.test.op, ast.Not) and isinstance(n.test.operand, ast.BoolOp):
+            n = ast.copy_location(ast.If(test=n.test.operand, body=n.orelse, orelse=n.body), n)
         self.generic_visit(n)
         if n.orelse and (not (len(n.orelse) == 1 and isinstance(n.orelse[0], ast.If)) or
                          (isinstance(n.test, ast.Compare) and len(n.test.ops) == 1 and isinstance(n.test.ops[0], (ast.NotEq, ast.IsNot, ast.NotIn)))):
